@@ -69,12 +69,13 @@ package decode
 //@   ensures [C13.nonfinite C02.nonfinite] (= result (or (fp.isNaN f) (fp.isInfinite f)))
 
 //@ contract decodeNumber
-//@   needs ffv0 dstmon
+//@   needs ffv0 dstmon pcur
 //@   at call decode.printer assert [C11.operand.number] (= (at arg2 (int 0)) (ifaceas float32 (ite (= dnf (fnid buffer.decodeReal)) (spec.realV B P) (ite (= dnf (fnid buffer.decodeCoordinate)) (spec.coordV B P) (spec.z2oV B P)))))
 //@   at call decode.printer assert [C11.hex.le4 C02.hex.le4] (bvule (len arg0) (int 4))
 //@   at call decode.printer assert [C11.bytes.region] (or (= (len arg0) (int 0)) (and (= (rgn arg0) (rgn src@0)) (bvule (off src@0) (off arg0)) (bvule (bvadd (off arg0) (len arg0)) (bvadd (off src@0) (len src@0)))))
 //@   requires [dnf] isDnf
-//@   modifies tr.decode.printer
+//@   modifies tr.decode.printer mon.pcur
+//@   ensures [C11.cursor] (=> (and (not (= p 0)) (pcur.at (old mon.pcur) P) (= result.2 nil.Iface)) (pcur.at mon.pcur (off result.1)))
 //@   ensures [C11.nil-printer C02.nil-printer] (=> (= p 0) (= TRP (old TRP)))
 //@   let k (spec.numN B P (len src))
 //@   ensures [C02.number.err C03.number.err C08.dec.number.err C13.number.err] (= result.2 (ite (= k (int 0)) (errval errInvalidNumber) nil.Iface))
@@ -99,10 +100,11 @@ package decode
 //@   invariant 0 [coords.cp.values] thorough (and (=> (bvslt (int 0) K) (= (at coords (int 0)) (draw.c0 B0 P0 E0))) (=> (bvslt (int 1) K) (= (at coords (int 1)) (draw.c1 B0 P0 E0))) (=> (bvslt (int 2) K) (= (at coords (int 2)) (draw.c2 B0 P0 E0))) (=> (bvslt (int 3) K) (= (at coords (int 3)) (draw.c3 B0 P0 E0))) (=> (bvslt (int 4) K) (= (at coords (int 4)) (draw.c4 B0 P0 E0))) (=> (bvslt (int 5) K) (= (at coords (int 5)) (draw.c5 B0 P0 E0))))
 
 //@ contract decodeAngle
-//@   needs ffv0 dstmon
+//@   needs ffv0 dstmon pcur
 //@   at call decode.printer assert [C11.hex.le4 C02.hex.le4] (bvule (len arg0) (int 4))
 //@   at call decode.printer assert [C11.bytes.region] (or (= (len arg0) (int 0)) (and (= (rgn arg0) (rgn src@0)) (bvule (off src@0) (off arg0)) (bvule (bvadd (off arg0) (len arg0)) (bvadd (off src@0) (len src@0)))))
-//@   modifies tr.decode.printer
+//@   modifies tr.decode.printer mon.pcur
+//@   ensures [C11.cursor] (=> (and (not (= p 0)) (pcur.at (old mon.pcur) P) (= result.2 nil.Iface)) (pcur.at mon.pcur (off result.1)))
 //@   ensures [C11.nil-printer C02.nil-printer] (=> (= p 0) (= TRP (old TRP)))
 //@   let k (spec.numN B P (len src))
 //@   ensures [C02.angle.err C03.angle.err] (= result.2 (ite (= k (int 0)) (errval errInvalidNumber) nil.Iface))
@@ -113,11 +115,12 @@ package decode
 //@   ensures [C11.angle.print] (ite (or (= p 0) (= k (int 0))) (= TRP (old TRP)) (and ((_ is cons.decode.printer) TRP) (= (decode.printer.call.a0 (hd.decode.printer TRP)) (ffv0.take src k)) (= (tl.decode.printer TRP) (old TRP))))
 
 //@ contract decodeArcToFlags
-//@   needs ffv0 dstmon
+//@   needs ffv0 dstmon pcur
 //@   at call decode.printer assert [C11.operand.flags] (and (= (at arg2 (int 1)) (ifaceas uint32 (bvand (spec.natV B P) #x00000001))) (= (at arg2 (int 2)) (ifaceas uint32 (bvand (bvlshr (spec.natV B P) #x00000001) #x00000001))))
 //@   at call decode.printer assert [C11.hex.le4 C02.hex.le4] (bvule (len arg0) (int 4))
 //@   at call decode.printer assert [C11.bytes.region] (or (= (len arg0) (int 0)) (and (= (rgn arg0) (rgn src@0)) (bvule (off src@0) (off arg0)) (bvule (bvadd (off arg0) (len arg0)) (bvadd (off src@0) (len src@0)))))
-//@   modifies tr.decode.printer
+//@   modifies tr.decode.printer mon.pcur
+//@   ensures [C11.cursor] (=> (and (not (= p 0)) (pcur.at (old mon.pcur) P) (= result.3 nil.Iface)) (pcur.at mon.pcur (off result.2)))
 //@   ensures [C11.nil-printer C02.nil-printer] (=> (= p 0) (= TRP (old TRP)))
 //@   let k (spec.numN B P (len src))
 //@   ensures [C02.flags.err C03.flags.err] (= result.3 (ite (= k (int 0)) (errval errInvalidNumber) nil.Iface))
@@ -130,12 +133,13 @@ package decode
 // ---- drawing mode (C02, C03, C11)
 
 //@ contract decodeDrawing
-//@   needs ffv0 dstmon
+//@   needs ffv0 dstmon pcur
 //@   at call decode.printer assert [C11.hex.le4 C02.hex.le4] (bvule (len arg0) (int 4))
 //@   at call decode.printer assert [C11.bytes.region] (or (= (len arg0) (int 0)) (and (= (rgn arg0) (rgn src@0)) (bvule (off src@0) (off arg0)) (bvule (bvadd (off arg0) (len arg0)) (bvadd (off src@0) (len src@0)))))
 //@   requires [nonempty] (bvugt (len src) (int 0))
 //@   split thorough (bvlshr (at src (int 0)) #x04) in #x00 #x01 #x02 #x03 #x04 #x05 #x06 #x07 #x08 #x09 #x0a #x0b #x0c #x0d #x0e
-//@   modifies tr.ivg.Destination tr.decode.printer mon.dst
+//@   modifies tr.ivg.Destination tr.decode.printer mon.dst mon.pcur
+//@   ensures [C11.cursor] (=> (and (not (= p 0)) (pcur.at (old mon.pcur) P) (= result.2 nil.Iface)) (pcur.at mon.pcur (off result.1)))
 //@   ensures [C11.nil-printer C02.nil-printer] (=> (= p 0) (= TRP (old TRP)))
 //@   ensures [C02.mono] (and (dst.mono (old mon.dst) mon.dst) (=> (= dst nil.Iface) (= mon.dst (old mon.dst))))
 //@   let op (at src (int 0))
@@ -151,6 +155,7 @@ package decode
 //@   ensures [C03.draw.rep.trunc] internal thorough (=> (and (bvult op #xb0) (not (= err nil.Iface))) (not (draw.repOK B (off phi:src) E g)))
 //@   ensures [C02.draw.rep.rest C03.draw.rep.rest] (=> (and (bvult op #xe0) (= err nil.Iface)) (and (= mf (fnid decodeDrawing)) (= (rgn src1) (rgn src)) (= (bvadd (off src1) (len src1)) E) (= (bvadd (off src1) (cap src1)) (bvadd P (cap src))) (bvult P (off src1)) (bvule (off src1) E)))
 //@   let E0 (bvadd (off src@0) (len src@0))
+//@   invariant 0 [draw.reps.pcur C11.cursor.reps] (=> (and (not (= p 0)) (pcur.at (old mon.pcur) (off src@0))) (pcur.at mon.pcur (off src)))
 //@   invariant 0 [draw.reps C03.draw.reps] (and (bvult (at src@0 (int 0)) #xe0) (= nReps (draw.reps (at src@0 (int 0)))) (bvsle (int 0) i) (bvsle i nReps) (= (rgn src) (rgn src@0)) (= E E0) (bvult (off src@0) (off src)) (bvule (off src) E0) (= (bvadd (off src) (cap src)) (bvadd (off src@0) (cap src@0))) (dst.mono (old mon.dst) mon.dst) (=> (= dst nil.Iface) (and (= TRD (old TRD)) (= mon.dst (old mon.dst)))) (=> (= p 0) (= TRP (old TRP))))
 //@   at call ivg.Destination.AbsLineTo assert [C03.draw.dispatch.AbsLineTo] (and (bvult (draw.group (at src@0 (int 0))) #x02) (= arg0 coords[0]) (= arg1 coords[1]))
 //@   at call ivg.Destination.RelLineTo assert [C03.draw.dispatch.RelLineTo] (and (and (bvuge (draw.group (at src@0 (int 0))) #x02) (bvult (draw.group (at src@0 (int 0))) #x04)) (= arg0 coords[0]) (= arg1 coords[1]))
@@ -186,13 +191,14 @@ package decode
 //@ filelet stylEvent (= TRD (ite (or (= dst nil.Iface) (not stylOK)) (old TRD) (cons.ivg.Destination (styl.event B P E dst) (old TRD))))
 
 //@ contract decodeSetCReg
-//@   needs ffv0 dstmon
+//@   needs ffv0 dstmon pcur
 //@   at call decode.printer assert [C11.operand.color] (=> (= arg1 (strlit "    %v\n")) (= (at arg2 (int 0)) (ifaceas ivg.Color (styl.color B P))))
 //@   at call decode.printer assert [C11.hex.le4 C02.hex.le4] (bvule (len arg0) (int 4))
 //@   at call decode.printer assert [C11.bytes.region] (or (= (len arg0) (int 0)) (and (= (rgn arg0) (rgn src@0)) (bvule (off src@0) (off arg0)) (bvule (bvadd (off arg0) (len arg0)) (bvadd (off src@0) (len src@0)))))
 //@   requires [nonempty] (bvugt (len src) (int 0))
 //@   requires [opcode] (and (= opcode (at src (int 0))) (bvuge opcode #x80) (bvult opcode #xa8))
-//@   modifies tr.ivg.Destination tr.decode.printer mon.dst
+//@   modifies tr.ivg.Destination tr.decode.printer mon.dst mon.pcur
+//@   ensures [C11.cursor] (=> (and (not (= p 0)) (pcur.at (old mon.pcur) P) (= result.2 nil.Iface)) (pcur.at mon.pcur (off result.1)))
 //@   ensures [C11.nil-printer C02.nil-printer] (=> (= p 0) (= TRP (old TRP)))
 //@   ensures [C02.mono] (and (dst.mono (old mon.dst) mon.dst) (=> (= dst nil.Iface) (= mon.dst (old mon.dst))))
 //@   ensures [C02.creg.err C03.creg.err] (= result.2 stylErr)
@@ -200,13 +206,14 @@ package decode
 //@   ensures [C03.creg.event C02.creg.event] stylEvent
 
 //@ contract decodeSetNReg
-//@   needs ffv0 dstmon
+//@   needs ffv0 dstmon pcur
 //@   at call decode.printer assert [C11.operand.nreg] (=> (= arg1 (strlit "    %g\n")) (= (at arg2 (int 0)) (ifaceas float32 (styl.number B P))))
 //@   at call decode.printer assert [C11.hex.le4 C02.hex.le4] (bvule (len arg0) (int 4))
 //@   at call decode.printer assert [C11.bytes.region] (or (= (len arg0) (int 0)) (and (= (rgn arg0) (rgn src@0)) (bvule (off src@0) (off arg0)) (bvule (bvadd (off arg0) (len arg0)) (bvadd (off src@0) (len src@0)))))
 //@   requires [nonempty] (bvugt (len src) (int 0))
 //@   requires [opcode] (and (= opcode (at src (int 0))) (bvuge opcode #xa8) (bvult opcode #xc0))
-//@   modifies tr.ivg.Destination tr.decode.printer mon.dst
+//@   modifies tr.ivg.Destination tr.decode.printer mon.dst mon.pcur
+//@   ensures [C11.cursor] (=> (and (not (= p 0)) (pcur.at (old mon.pcur) P) (= result.2 nil.Iface)) (pcur.at mon.pcur (off result.1)))
 //@   ensures [C11.nil-printer C02.nil-printer] (=> (= p 0) (= TRP (old TRP)))
 //@   ensures [C02.mono] (and (dst.mono (old mon.dst) mon.dst) (=> (= dst nil.Iface) (= mon.dst (old mon.dst))))
 //@   ensures [C02.nreg.err C03.nreg.err] (= result.2 stylErr)
@@ -214,12 +221,13 @@ package decode
 //@   ensures [C03.nreg.event C02.nreg.event] stylEvent
 
 //@ contract decodeStartPath
-//@   needs ffv0 dstmon
+//@   needs ffv0 dstmon pcur
 //@   at call decode.printer assert [C11.hex.le4 C02.hex.le4] (bvule (len arg0) (int 4))
 //@   at call decode.printer assert [C11.bytes.region] (or (= (len arg0) (int 0)) (and (= (rgn arg0) (rgn src@0)) (bvule (off src@0) (off arg0)) (bvule (bvadd (off arg0) (len arg0)) (bvadd (off src@0) (len src@0)))))
 //@   requires [nonempty] (bvugt (len src) (int 0))
 //@   requires [opcode] (and (= opcode (at src (int 0))) (bvuge opcode #xc0) (bvult opcode #xc7))
-//@   modifies tr.ivg.Destination tr.decode.printer mon.dst
+//@   modifies tr.ivg.Destination tr.decode.printer mon.dst mon.pcur
+//@   ensures [C11.cursor] (=> (and (not (= p 0)) (pcur.at (old mon.pcur) P) (= result.2 nil.Iface)) (pcur.at mon.pcur (off result.1)))
 //@   ensures [C11.nil-printer C02.nil-printer] (=> (= p 0) (= TRP (old TRP)))
 //@   ensures [C02.mono] (and (dst.mono (old mon.dst) mon.dst) (=> (= dst nil.Iface) (= mon.dst (old mon.dst))))
 //@   ensures [C02.start.err C03.start.err] (= result.2 stylErr)
@@ -227,12 +235,13 @@ package decode
 //@   ensures [C03.start.event C02.start.event] stylEvent
 
 //@ contract decodeSetLOD
-//@   needs ffv0 dstmon
+//@   needs ffv0 dstmon pcur
 //@   at call decode.printer assert [C11.hex.le4 C02.hex.le4] (bvule (len arg0) (int 4))
 //@   at call decode.printer assert [C11.bytes.region] (or (= (len arg0) (int 0)) (and (= (rgn arg0) (rgn src@0)) (bvule (off src@0) (off arg0)) (bvule (bvadd (off arg0) (len arg0)) (bvadd (off src@0) (len src@0)))))
 //@   requires [nonempty] (bvugt (len src) (int 0))
 //@   requires [opcode] (= (at src (int 0)) #xc7)
-//@   modifies tr.ivg.Destination tr.decode.printer mon.dst
+//@   modifies tr.ivg.Destination tr.decode.printer mon.dst mon.pcur
+//@   ensures [C11.cursor] (=> (and (not (= p 0)) (pcur.at (old mon.pcur) P) (= result.2 nil.Iface)) (pcur.at mon.pcur (off result.1)))
 //@   ensures [C11.nil-printer C02.nil-printer] (=> (= p 0) (= TRP (old TRP)))
 //@   ensures [C02.mono] (and (dst.mono (old mon.dst) mon.dst) (=> (= dst nil.Iface) (= mon.dst (old mon.dst))))
 //@   ensures [C02.lod.err C03.lod.err] (= result.2 stylErr)
@@ -240,12 +249,13 @@ package decode
 //@   ensures [C03.lod.event C02.lod.event] stylEvent
 
 //@ contract decodeStyling
-//@   needs ffv0 dstmon
+//@   needs ffv0 dstmon pcur
 //@   at call decode.printer assert [C11.hex.le4 C02.hex.le4] (bvule (len arg0) (int 4))
 //@   at call decode.printer assert [C11.operand.nsel] (=> (= arg1 (strlit "Set NSEL = %d\n")) (= (at arg2 (int 0)) (ifaceas uint8 (bvand (at src@0 (int 0)) #x3f))))
 //@   at call decode.printer assert [C11.operand.csel] (=> (= arg1 (strlit "Set CSEL = %d\n")) (= (at arg2 (int 0)) (ifaceas uint8 (bvand (at src@0 (int 0)) #x3f))))
 //@   requires [nonempty] (bvugt (len src) (int 0))
-//@   modifies tr.ivg.Destination tr.decode.printer mon.dst
+//@   modifies tr.ivg.Destination tr.decode.printer mon.dst mon.pcur
+//@   ensures [C11.cursor] (=> (and (not (= p 0)) (pcur.at (old mon.pcur) P) (= result.2 nil.Iface)) (pcur.at mon.pcur (off result.1)))
 //@   ensures [C11.nil-printer C02.nil-printer] (=> (= p 0) (= TRP (old TRP)))
 //@   ensures [C02.mono] (and (dst.mono (old mon.dst) mon.dst) (=> (= dst nil.Iface) (= mon.dst (old mon.dst))))
 //@   ensures [C02.styl.err C03.styl.err] (= result.2 stylErr)
@@ -257,11 +267,12 @@ package decode
 //@ contract decodeMetadataChunk
 //@   timeout 240
 //@   per-return
-//@   needs metadata
+//@   needs metadata pcur
 //@   at call decode.printer assert [C11.operand.palette] (and (bvsle (int 0) phi:i) (= (len arg2) (int 4)) (= (at arg2 (int 0)) (ifaceas uint8 (color.RGBA.R (spec.sanitize c)))) (= (at arg2 (int 1)) (ifaceas uint8 (color.RGBA.G (spec.sanitize c)))) (= (at arg2 (int 2)) (ifaceas uint8 (color.RGBA.B (spec.sanitize c)))) (= (at arg2 (int 3)) (ifaceas uint8 (color.RGBA.A (spec.sanitize c)))))
 //@   at call decode.printer assert [C11.hex.le4 C02.hex.le4] (bvule (len arg0) (int 4))
 //@   at call decode.printer assert [C11.bytes.region] (or (= (len arg0) (int 0)) (and (= (rgn arg0) (rgn src@0)) (bvule (off src@0) (off arg0)) (bvule (bvadd (off arg0) (len arg0)) (bvadd (off src@0) (len src@0)))))
-//@   modifies *m tr.decode.printer
+//@   modifies *m tr.decode.printer mon.pcur
+//@   ensures [C11.cursor] (=> (and (not (= p 0)) (pcur.at (old mon.pcur) P) (= result.1 nil.Iface)) (pcur.at mon.pcur (off result.0)))
 //@   ensures [C11.nil-printer C02.nil-printer] (=> (= p 0) (= TRP (old TRP)))
 //@   split (meta.mid B P E) in #x00000000 #x00000001
 //@   let cls (meta.err B P E)
@@ -280,6 +291,7 @@ package decode
 //@   at call decodeNumber#2 assert [meta.vb.cp2] (and (= (rgn arg1) (rgn src@0)) (= (bvadd (off arg1) (len arg1)) E0) (= (bvadd (off arg1) (cap arg1)) (bvadd P0 (cap src@0))) (= (off arg1) (draw.p2 B0 (meta.p2 B0 P0 E0) E0)))
 //@   at call decodeNumber#3 assert [meta.vb.cp3] (and (= (rgn arg1) (rgn src@0)) (= (bvadd (off arg1) (len arg1)) E0) (= (bvadd (off arg1) (cap arg1)) (bvadd P0 (cap src@0))) (= (off arg1) (draw.p3 B0 (meta.p2 B0 P0 E0) E0)))
 //@   invariant 0 [meta.pal.cursor] (and (=> (= p 0) (= TRP (old TRP))) (= (meta.mid B0 P0 E0) #x00000001) (ffv0.numOK B0 P0 E0) (ffv0.numOK B0 (meta.p1 B0 P0 E0) E0) (bvult (meta.p2 B0 P0 E0) E0) (= length:int (meta.palN1 bb)) (bvsle (int 0) i) (bvsle i length:int) (= (rgn src) (rgn src@0)) (= E E0) (= (bvadd (off src) (cap src)) (bvadd P0 (cap src@0))) (= (off src) (bvadd (meta.palP3 B0 P0 E0) (bvmul i (meta.palW bb)))) (bvule (off src) E0) (= lenSrcWant (bvsub (bvsub E0 (meta.p1 B0 P0 E0)) (meta.len B0 P0))))
+//@   invariant 0 [meta.pal.pcur C11.cursor.palette] (=> (and (not (= p 0)) (pcur.at (old mon.pcur) (off src@0))) (pcur.at mon.pcur (off src)))
 //@   invariant 0 [meta.pal.decode] (= decode (ite (= (meta.palFmt bb) #x00) (fnid buffer.decodeColor1) (ite (= (meta.palFmt bb) #x01) (fnid buffer.decodeColor2) (ite (= (meta.palFmt bb) #x02) (fnid buffer.decodeColor3Direct) (fnid buffer.decodeColor4)))))
 //@   invariant 0 [meta.pal.entries] (and (= m.ViewBox (old m.ViewBox)) (forall ((k!m (_ BitVec 64))) (=> (bvult k!m #x0000000000000040) (= (select m.Palette k!m) (ite (bvslt k!m i) (meta.palEntry B0 P0 E0 k!m) (select (old m.Palette) k!m))))))
 
@@ -287,11 +299,12 @@ package decode
 // ---- the decoder proper (C02, C03, C13, C14)
 
 //@ contract decode
-//@   needs dstmon opaque:metadata opaque:ffv0
+//@   needs dstmon pcur opaque:metadata opaque:ffv0
 //@   at call decode.printer assert [C11.hex.le4 C02.hex.le4] (bvule (len arg0) (int 4))
 //@   at call decode.printer assert [C11.bytes.region] (or (= (len arg0) (int 0)) (and (= (rgn arg0) (rgn src@0)) (bvule (off src@0) (off arg0)) (bvule (bvadd (off arg0) (len arg0)) (bvadd (off src@0) (len src@0)))))
 //@   requires [opts-nonnil] (forall ((k!o (_ BitVec 64))) (=> (bvult k!o (len opts)) (not (= (at opts k!o) 0))))
-//@   modifies *m tr.ivg.Destination tr.decode.printer mon.dst
+//@   modifies *m tr.ivg.Destination tr.decode.printer mon.dst mon.pcur
+//@   ensures [C11.cursor.complete] (=> (and (not (= p 0)) (not metadataOnly) (pcur.at (old mon.pcur) P) (= err nil.Iface)) (pcur.at mon.pcur E))
 //@   ensures [C11.nil-printer C02.nil-printer] (=> (= p 0) (= TRP (old TRP)))
 //@   ensures [C02.mono] (and (dst.mono (old mon.dst) mon.dst) (=> (= dst nil.Iface) (= mon.dst (old mon.dst))))
 //@   ensures [C02.no-early C13.no-early] (=> (not (dst.started (old mon.dst))) (dst.clean mon.dst))
@@ -308,9 +321,13 @@ package decode
 // spec section Metadata: "Chunks must be presented in increasing MID order ... MIDs cannot be repeated". The decoder does not
 // enforce this (defect F6, recorded as a known finding): the clause below is expected to fail.
 //@   step 0 [C03.meta.mid-order] (=> (bvugt nMetadataChunks #x00000000) (bvult (meta.mid (arr src@0) (head (off src)) E0) (meta.mid (arr src@0) (off src) E0)))
+//@   invariant 0 [decode.chunks.pcur C11.cursor.chunks] (=> (and (not (= p 0)) (pcur.at (old mon.pcur) (off src@0))) (pcur.at mon.pcur (off src)))
 //@   invariant 0 [decode.chunks C02.chunks.no-event C13.chunks.no-event] (and (=> (= p 0) (= TRP (old TRP))) (= TRD (old TRD)) (= mon.dst (old mon.dst)) (= (rgn src) (rgn src@0)) (= E E0) (bvule (off src) E0))
+//@   invariant 1 [decode.opts.pcur C11.cursor.opts] (=> (and (not (= p 0)) (pcur.at (old mon.pcur) (off src@0))) (pcur.at mon.pcur (off after:src)))
 //@   invariant 1 [decode.opts C14.opts.no-event] (and (=> (= p 0) (= TRP (old TRP))) (= TRD (old TRD)) (= mon.dst (old mon.dst)))
+//@   invariant 2 [decode.sanitise.pcur C11.cursor.sanitise] (=> (and (not (= p 0)) (pcur.at (old mon.pcur) (off src@0))) (pcur.at mon.pcur (off after:src)))
 //@   invariant 2 [decode.sanitise C14.sanitise] (and (=> (= p 0) (= TRP (old TRP))) (= TRD (old TRD)) (= mon.dst (old mon.dst)) (forall ((k!v (_ BitVec 64))) (=> (bvsle k!v rangeindex) (=> (bvult k!v #x0000000000000040) (spec.validPremul (select m.Palette k!v))))))
+//@   invariant 3 [decode.loop.pcur C11.cursor.loop] (=> (and (not (= p 0)) (pcur.at (old mon.pcur) (off src@0))) (pcur.at mon.pcur (off src)))
 //@   invariant 3 [decode.loop C02.loop] (and (=> (= p 0) (= TRP (old TRP))) (or (= mf (fnid decodeStyling)) (= mf (fnid decodeDrawing))) (= (rgn src) (rgn src@0)) (= E E0) (bvule (off src) E0) (=> (not (dst.started (old mon.dst))) (dst.clean mon.dst)) (dst.mono (old mon.dst) mon.dst) (or (= dst nil.Iface) (dst.started mon.dst)) (=> (= dst nil.Iface) (and (= TRD (old TRD)) (= mon.dst (old mon.dst)))))
 //@   step 3 [C02.progress C03.progress] (bvult (head (off src)) (off src))
 
@@ -333,19 +350,20 @@ package decode
 //@   modifies *w mem.u8 mem.Iface
 
 //@ contract Decode
-//@   needs dstmon opaque:metadata opaque:ffv0
+//@   needs dstmon pcur opaque:metadata opaque:ffv0
 //@   requires [opts-nonnil] (forall ((k!o (_ BitVec 64))) (=> (bvult k!o (len opts)) (not (= (at opts k!o) 0))))
-//@   modifies tr.ivg.Destination mon.dst tr.decode.printer
+//@   modifies tr.ivg.Destination mon.dst tr.decode.printer mon.pcur
 //@   ensures [C02.mono] (and (dst.mono (old mon.dst) mon.dst) (=> (= dst nil.Iface) (= mon.dst (old mon.dst))))
 //@   ensures [C02.no-early C13.no-early] (=> (not (dst.started (old mon.dst))) (dst.clean mon.dst))
 //@   ensures [C02.decode.no-printer C11.decode.no-printer] (= tr.decode.printer (old tr.decode.printer))
 
 //@ contract DecodeViewBox
-//@   needs dstmon opaque:metadata opaque:ffv0
-//@   modifies tr.ivg.Destination mon.dst tr.decode.printer
+//@   needs dstmon pcur opaque:metadata opaque:ffv0
+//@   modifies tr.ivg.Destination mon.dst tr.decode.printer mon.pcur
 //@   ensures [C13.viewbox-only C02.viewbox-only] (and (= tr.ivg.Destination (old tr.ivg.Destination)) (= tr.decode.printer (old tr.decode.printer)))
 
 //@ contract Disassemble
-//@   needs dstmon opaque:metadata opaque:ffv0
-//@   modifies tr.ivg.Destination mon.dst tr.decode.printer mem.u8 nextR
+//@   needs dstmon pcur opaque:metadata opaque:ffv0
+//@   modifies tr.ivg.Destination mon.dst tr.decode.printer mon.pcur mem.u8 nextR
 //@   ensures [C11.no-destination C02.no-destination] (= tr.ivg.Destination (old tr.ivg.Destination))
+//@   ensures [C11.cursor.complete] (=> (and (pcur.at (old mon.pcur) (off src)) (= result.1 nil.Iface)) (pcur.at mon.pcur (bvadd (off src) (len src))))
